@@ -645,3 +645,9 @@ func VerifC08MergeArraysAndStream() {
 	vassert(err == io.EOF, "the merge ends after every source has ended")
 	m.Close()
 }
+
+// thorough tier: three sources of two items each
+func VerifC08Merge3x2() { c08Merge(3, 2, false) }
+
+// thorough tier: four copies of one stream
+func VerifC08Copy4() { c08Copy(4, 2, 5, false) }
